@@ -3,6 +3,7 @@ From RJ Require Import Base.Prelude Base.OrderedPlan Model.Settings Model.Core M
   Spec.PlanSpec Spec.Mirror Proofs.ExecProofs Proofs.PathsProofs Proofs.MirrorProofs Proofs.IdemProofs Proofs.IdemMain Proofs.InstanceProofs Proofs.RepairMain.
 From RJ Require Import Model.SyncTop.
 From RJ Require Model.Walker Proofs.WalkBridge Proofs.WalkedSync.
+From RJ Require Import Model.SpecRun Proofs.SpecProofs.
 
 (* If a sync returns Ok without skips (and it was no dry run and nothing went through a link), then
    running the same sync again on what it left behind - with any answers, interleaving, listing order
@@ -54,6 +55,26 @@ Theorem C04_idempotent_walked : forall now_z incl normalize chunker,
   (forall p, ~ In (CGetFileContent p) (r_src_trace r2)) /\ r_prompts r2 = [] /\ stats_nothing (r_stats r2) = true.
 Proof. exact WalkedSync.walked_sync_twice. Qed.
 
+(* A SPEC WITH SEVERAL SYNCS run a second time does nothing (Model/SpecRun.v, Proofs/SpecProofs.v): if the first run
+   exited 0, every sync of it ran without skips (no dry run, Unix destination, same-time files skipped), each source had
+   set times and well-formed link texts when it was read, and no sync writes to the destination or the source of an
+   EARLIER sync of the spec (a destination may be the source of a later one: A -> B, then B -> C) - then, run again on the
+   trees the first run left, every sync returns Ok, sends no mutating command, fetches no content, asks nothing and
+   reports "Nothing to do"; the status is 0 and every tree is as it was. *)
+Theorem C04_spec_twice : forall jobs st,
+  store_ok st ->
+  sp_ok (run_spec jobs st) = true ->
+  Forall (fun t => let j := t_job t in let S := sget (t_store t) (j_src j) in
+            src_times_set S /\ links_utf8 S /\ j_src j <> j_dst j /\
+            r_skipped (t_res t) = [] /\ r_root_skipped (t_res t) = false /\
+            cf_dry (j_cfg j) = false /\ cf_fl (j_cfg j) = Unix /\ b_same (cf_b (j_cfg j)) = BSkip) (spec_trace jobs st) ->
+  (forall pre t post, spec_trace jobs st = pre ++ t :: post ->
+     forall t', In t' post -> j_dst (t_job t') <> j_dst (t_job t) /\ j_dst (t_job t') <> j_src (t_job t)) ->
+  let F := sp_store (run_spec jobs st) in
+  sp_ok (run_spec jobs F) = true /\ (forall i, sget (sp_store (run_spec jobs F)) i = sget F i) /\
+  length (sp_runs (run_spec jobs F)) = length jobs /\ Forall quiet (sp_runs (run_spec jobs F)).
+Proof. exact spec_twice. Qed.
+
 (* The two halves, usable on their own: a mirrored destination plans nothing ... *)
 Theorem C04_mirror_plans_nothing : forall now_z incl normalize diff fl S D D' ls ld',
   mirror now_z incl normalize diff fl S D D' -> wf_fs S -> wf_fs D -> fget S [] <> None ->
@@ -88,3 +109,4 @@ Print Assumptions C04_idempotent_executable.
 Print Assumptions C04_mirror_plans_nothing.
 Print Assumptions C04_link_text_reads_back.
 Print Assumptions C04_idempotent_walked.
+Print Assumptions C04_spec_twice.
